@@ -359,7 +359,7 @@ theorem sim_buildStack {w : Walker Node} {a : TW Node} (h : Sim H ps w a) (posit
   have hst' : ({ w with position := position } : Walker Node).stackTarget = w.stackTarget := rfl
   rw [hst', hl]
   refine ⟨_, rfl, ?_, Same.rfl' _, rfl⟩
-  refine ⟨hpw, rfl, h.root, ?_, ?_, ?_, ?_, ?_, h.norecon, h.cpr⟩
+  refine ⟨hpw, rfl, h.root, ?_, ?_, ?_, ?_, ?_, h.norecon, h.cpr, h.outs⟩
   · show l ++ w.stack = [] ↔ position.path.length ≤ 6 * k0 w.parentPage
     constructor
     · intro e; exact absurd e hnonempty
@@ -390,7 +390,7 @@ theorem sim_buildStack_root {w : Walker Node} {a : TW Node} (h : Sim H ps w a) (
   rw [hst]
   simp only [List.length_nil, Walker.popAll]
   refine ⟨_, rfl, ?_, ⟨hpar.symm, rfl, rfl, rfl, rfl⟩, rfl⟩
-  refine ⟨hpw, hnil, h.root, ?_, ?_, ?_, ?_, ?_, h.norecon, h.cpr⟩
+  refine ⟨hpw, hnil, h.root, ?_, ?_, ?_, ?_, ?_, h.norecon, h.cpr, h.outs⟩
   · simp
   · intro sp rest e; cases e
   · trivial
